@@ -555,6 +555,57 @@ def _zero_block_types_unmonitored(mod, zero):
     return True
 
 
+def ctype_sites(mod, facts_of):
+    """(function, gep, index operand, ok) for every lookup in a <ctype.h> table; facts_of(fn) gives the Facts of a function"""
+    from ..lin import maxbits as _mb
+    for f in mod.defined():
+        if f.file.startswith("/usr/"):
+            continue
+        Fc = Mc = None
+        for i in f.insts():
+            if i.op != "call" or (mod.callee_cname(i) or "") not in ("__ctype_b_loc", "__ctype_tolower_loc", "__ctype_toupper_loc"):
+                continue
+            for ld in f.users(i.id):
+                for g in f.users(ld.id):
+                    if g.op != "getelementptr" or not g.steps:
+                        continue
+                    if Fc is None:
+                        Fc, Mc = facts_of(f), Matcher(f)
+                    fs = list(Fc.at_inst(g))
+                    if any(fc_[0] == "ne" and is_const(fc_[2]) and const_val(fc_[2]) == 0 and getattr(f.defn(Mc.strip(fc_[1])), "op", "") == "call"
+                           and (getattr(f.defn(Mc.strip(fc_[1])), "callee", "") or "").startswith("llvm.is.constant") for fc_ in fs if len(fc_) >= 3):
+                        continue            # the branch glibc's macro takes for a compile-time constant argument: folded away by the compiler
+                    idx = g.steps[-1].get("idx")
+                    x = idx
+                    okc = False
+                    for _ in range(4):
+                        d = f.defn(x) if x is not None else None
+                        if d is None or d.is_param:
+                            break
+                        sw = mod.int_bits(f.defn(d.ops[0]).ty) if d.op in ("sext", "zext") and f.defn(d.ops[0]) is not None else None
+                        if d.op == "zext" and sw is not None and sw <= 8:
+                            okc = True
+                            break
+                        if d.op == "sext" and sw is not None and sw <= 8:
+                            okc = True      # a signed char: -128..127
+                            break
+                        k = _mb(f, x)
+                        if k is not None and k <= 8:
+                            okc = True
+                            break
+                        if d.op in ("sext", "zext"):
+                            x = d.ops[0]
+                            continue
+                        break
+                    if not okc and x is not None:
+                        sx = Mc.strip(x)
+                        lo = any(len(fc_) >= 3 and fc_[0] in ("sge", "sgt") and Mc.strip(fc_[1]) == sx and is_const(fc_[2]) and (const_val(fc_[2]) or 0) - (1 << 64 if (const_val(fc_[2]) or 0) >= (1 << 63) else (1 << 32 if (const_val(fc_[2]) or 0) >= (1 << 31) else 0)) >= (-128 if fc_[0] == "sge" else -129) for fc_ in fs)
+                        hi = any(len(fc_) >= 3 and fc_[0] in ("slt", "sle", "ult", "ule") and Mc.strip(fc_[1]) == sx and is_const(fc_[2]) and (const_val(fc_[2]) or 1 << 40) <= (256 if fc_[0] in ("slt", "ult") else 255) for fc_ in fs)
+                        okc = hi and (lo or any(fc_[0] in ("ult", "ule") for fc_ in fs if len(fc_) >= 3 and Mc.strip(fc_[1]) == sx))
+                    yield f, g, idx, okc
+
+
+
 def run(tier, seed):
     rep = Report("C08", tier, "other",
                  "Static memory-safety analysis outside the decompressors (claimed in part): the RANGE abstract interpreter with symbolic linear "
@@ -904,53 +955,9 @@ def run(tier, seed):
         # sign-extended first is fine (>= -128); an int computed from archive bytes is not.
         rid = rep.rule("R7c", "the <ctype.h> tables (__ctype_b_loc, __ctype_tolower_loc, __ctype_toupper_loc) are indexed by a value in -128..255: a byte widened "
                               "to int, or a value under facts that bound it", 0)
-        from ..lin import maxbits as _mb
-        for f in mod.defined():
-            if f.file.startswith("/usr/"):
-                continue
-            Fc = Mc = None
-            for i in f.insts():
-                if i.op != "call" or (mod.callee_cname(i) or "") not in ("__ctype_b_loc", "__ctype_tolower_loc", "__ctype_toupper_loc"):
-                    continue
-                for ld in f.users(i.id):
-                    for g in f.users(ld.id):
-                        if g.op != "getelementptr" or not g.steps:
-                            continue
-                        if Fc is None:
-                            Fc, Mc = ctx.facts(f), Matcher(f)
-                        fs = list(Fc.at_inst(g))
-                        if any(fc_[0] == "ne" and is_const(fc_[2]) and const_val(fc_[2]) == 0 and getattr(f.defn(Mc.strip(fc_[1])), "op", "") == "call"
-                               and (getattr(f.defn(Mc.strip(fc_[1])), "callee", "") or "").startswith("llvm.is.constant") for fc_ in fs if len(fc_) >= 3):
-                            continue            # the branch glibc's macro takes for a compile-time constant argument: folded away by the compiler
-                        idx = g.steps[-1].get("idx")
-                        x = idx
-                        okc = False
-                        for _ in range(4):
-                            d = f.defn(x) if x is not None else None
-                            if d is None or d.is_param:
-                                break
-                            sw = mod.int_bits(f.defn(d.ops[0]).ty) if d.op in ("sext", "zext") and f.defn(d.ops[0]) is not None else None
-                            if d.op == "zext" and sw is not None and sw <= 8:
-                                okc = True
-                                break
-                            if d.op == "sext" and sw is not None and sw <= 8:
-                                okc = True      # a signed char: -128..127
-                                break
-                            k = _mb(f, x)
-                            if k is not None and k <= 8:
-                                okc = True
-                                break
-                            if d.op in ("sext", "zext"):
-                                x = d.ops[0]
-                                continue
-                            break
-                        if not okc and x is not None:
-                            sx = Mc.strip(x)
-                            lo = any(len(fc_) >= 3 and fc_[0] in ("sge", "sgt") and Mc.strip(fc_[1]) == sx and is_const(fc_[2]) and (const_val(fc_[2]) or 0) - (1 << 64 if (const_val(fc_[2]) or 0) >= (1 << 63) else (1 << 32 if (const_val(fc_[2]) or 0) >= (1 << 31) else 0)) >= (-128 if fc_[0] == "sge" else -129) for fc_ in fs)
-                            hi = any(len(fc_) >= 3 and fc_[0] in ("slt", "sle", "ult", "ule") and Mc.strip(fc_[1]) == sx and is_const(fc_[2]) and (const_val(fc_[2]) or 1 << 40) <= (256 if fc_[0] in ("slt", "ult") else 255) for fc_ in fs)
-                            okc = hi and (lo or any(fc_[0] in ("ult", "ule") for fc_ in fs if len(fc_) >= 3 and Mc.strip(fc_[1]) == sx))
-                        rep.check(rid, okc, "%s: character-class table indexed by %s" % (f.cname, describe(f, idx)), g.where(),
-                                  None if okc else "the index is not a widened byte and no fact bounds it to -128..255", function=f.cname, obj="ctype")
+        for f, g, idx, okc in ctype_sites(mod, ctx.facts):
+            rep.check(rid, okc, "%s: character-class table indexed by %s" % (f.cname, describe(f, idx)), g.where(),
+                      None if okc else "the index is not a widened byte and no fact bounds it to -128..255", function=f.cname, obj="ctype")
         rid = rep.rule("R5", "nullable header strings (path, filename, symlink_target, unix_username, unix_group) are used as strings only under a non-NULL fact", 25)
         LISTED = {
             ("is_macbinary_header", "filename"): "MacBinary detection runs for file members only (open_decoder requires a NORMAL entry that is decoded; C12.R5: a file entry always has a name)",
